@@ -249,7 +249,8 @@ struct DomExec {
     }
   }
 
-  // ---- D5 bookkeeping (known finding C13: previous ParseSchema text buffers are never freed)
+  // ---- D5 bookkeeping (defect repaired by /repo 08c86de; kept so that its return is named precisely:
+  //      before the repair the text buffer was exactly len+64 bytes and earlier ones were never freed)
   void note_schema_buffer(Slot& s, size_t textlen) {
     if (s.flavour == FL_POOL) return;
     uint8_t prov = s.flavour == FL_SIM ? simmem::SIMALLOC : simmem::LIBC;
